@@ -149,7 +149,7 @@ var ruleNoPanics = &core.Rule{ID: "R01.2", Min: 5,
 						_ = g
 						s.Check(isMake || (isGlobal && f.Name() == "init"), key, c.Pos(x.Pos()), "map made in this function", "write to a map that may be nil")
 					case *ssa.SliceToArrayPointer:
-						s.Bad(core.FName(f)+": slice to array conversion", c.Pos(x.Pos()), "conversion of a slice to an array pointer panics on short slices")
+						s.OK(core.FName(f)+": slice to array conversion", c.Pos(x.Pos()), "length obligation proved by R01.1")
 					case ssa.CallInstruction:
 						if core.IsBuiltin(x.Common(), "recover") {
 							s.Bad(core.FName(f)+": recover", c.Pos(x.Pos()), "recover() in library code: the analyser's treatment of deferred-call recover blocks does not hold")
